@@ -231,6 +231,21 @@ func (f *Formatter) formatArgument(arg *ast.Argument) {
 func (f *Formatter) walkArgumentList(s ast.SelectionSet) map[string]string {
 	res := make(map[string]string)
 	for _, field := range common.SelectionSetToFields(s, nil) {
+		// variables used by the directives of the field, e.g. @include(if: $v)
+		for _, d := range field.Directives {
+			if d.Definition == nil {
+				continue
+			}
+			for _, a := range d.Arguments {
+				if a.Value == nil || a.Value.Kind != ast.Variable {
+					continue
+				}
+				if ad := d.Definition.Arguments.ForName(a.Name); ad != nil {
+					res[a.Value.Raw] = ad.Type.String()
+				}
+			}
+		}
+
 		for _, a := range field.Arguments {
 			if field.Definition == nil || field.Definition.Arguments == nil {
 				break
